@@ -29,7 +29,7 @@ EXTENDS Integers, Sequences, SequencesExt, FiniteSets, TLC, Json, IOUtils
 
 Data == JsonDeserialize(IOEnv.OBS_FILE)
 Logs == Data.logs          \* << [lines |-> << [op, m, u, h, b] >>, fails |-> << Int >>] >>
-Units == Data.units        \* << [a, b (indices into Logs), ph, same, wa, wb, stateless, how] >>
+Units == Data.units        \* << [a, b (indices into Logs), ph, same, wa, wb, stateless, limited, how] >>
 
 Phases == {"examples", "coverage", "fuzzing", "stateful"}
 SeqConstrained(u) == u.same /\ u.wa = 1 /\ u.wb = 1                           \* one worker: same sequence, same failures
@@ -49,8 +49,17 @@ Line == /\ ~done /\ SeqConstrained(Units[t])
         /\ l <= Len(A) /\ l <= Len(B)
         /\ A[l] = B[l]
         /\ l' = l + 1 /\ UNCHANGED <<t, done>>
+(* limited = a failure limit (max_failures) is configured.  The limit is counted by the thread that consumes the events while the     *)
+(* worker already proceeds, so a run that reaches its limit is CUT SHORT at a scheduling-dependent moment: at most InFlight requests  *)
+(* of the work already started may or may not still go out.  Such logs must agree position-wise on the common prefix and may differ   *)
+(* only by that tail; the reported failures must still be the same.                                                                   *)
+InFlight == 1
+MinOf(x, y) == IF x <= y THEN x ELSE y
+MaxOf(x, y) == IF x >= y THEN x ELSE y
 Finish == /\ ~done /\ SeqConstrained(Units[t])
-          /\ l = Len(A) + 1 /\ l = Len(B) + 1
+          /\ IF Units[t].limited
+             THEN l = MinOf(Len(A), Len(B)) + 1 /\ MaxOf(Len(A), Len(B)) - MinOf(Len(A), Len(B)) <= InFlight
+             ELSE l = Len(A) + 1 /\ l = Len(B) + 1
           /\ SetOf(Logs[Units[t].a].fails) = SetOf(Logs[Units[t].b].fails)
           /\ done' = TRUE /\ UNCHANGED <<t, l>>
 
@@ -80,6 +89,7 @@ FirstDiff(x, y) == IF x.op # y.op THEN "operation" ELSE IF x.m # y.m THEN "metho
                    ELSE IF x.h # y.h THEN "headers" ELSE "body"
 Why == IF BagConstrained(Units[t]) THEN "bag"
        ELSE IF l > Len(A) /\ l > Len(B) THEN "failures"
+       ELSE IF Units[t].limited /\ (l > Len(A) \/ l > Len(B)) /\ MaxOf(Len(A), Len(B)) - MinOf(Len(A), Len(B)) <= InFlight THEN "failures"
        ELSE IF l > Len(A) \/ l > Len(B) THEN "length"
        ELSE FirstDiff(A[l], B[l])
 (* sanity: the harness is not vacuous - over all units comparing DIFFERENT seeds at least one pair of logs differs *)
